@@ -43,6 +43,8 @@ type Region struct {
 	ESIDv  object.ExtendedSpatialID
 	Unit   *integrate.UnitDividedSpatialID
 	High   *integrate.HighSpatialID
+	Agg    *integrate.HighSpatialID  // an aggregate: 7 of the 8 children of one voxel of zoom Z-1 merged (more unit IDs than a fresh receiver)
+	Last   *object.ExtendedSpatialID // the 8th child
 	X0, Y0 int64
 }
 
@@ -61,8 +63,48 @@ type Pool struct {
 	Floats  []float64
 	Inner   [][2]int64
 	Malform []string
+	Rows    []*Row   // the same longitude at latitudes 0.5/26/35/43/60/75/-34/-60: voxels of one zoom in different latitude rows
 	Edge    []string // extended IDs on the edges of the grid (x, y in {0, 2^h-1, 2^h/2}) at mixed zooms 0..35: any shift wraps around
 	EdgeS   []string // voxels with h = v on the edges of the grid, in spatial-ID notation
+}
+
+// Row: one latitude. Mercator voxels get narrower towards the poles, so anything measured in metres differs per row at equal zoom.
+type Row struct {
+	Lat  float64
+	P    *object.Point
+	Q    []*object.Point // per RowZooms: a point about 1.5 voxels of that zoom away from P
+	EIDs []string        // per RowZooms: the extended ID (h = v = zoom) of the voxel that contains P
+	SIDs []string
+}
+
+// RowZooms: the zooms at which the rows have IDs.
+var RowZooms = []int64{25, 21, 17}
+var rowLats = []float64{0.5, 26.2, 35.67, 43.06, 60, 75, -34.6, -60}
+
+func newRows(r *rand.Rand) []*Row {
+	var rows []*Row
+	lon := 139.788081 + r.Float64()*0.01
+	for _, lat := range rowLats {
+		row := &Row{Lat: lat}
+		var err error
+		row.P, err = object.NewPoint(lon, lat, 100+r.Float64()*20)
+		must(err)
+		for _, z := range RowZooms {
+			cell := 360.0 / float64(int64(1)<<uint(z))
+			q, err := object.NewPoint(lon+cell*1.5, lat+cell*0.7*math.Cos(lat*math.Pi/180), 100)
+			must(err)
+			row.Q = append(row.Q, q)
+			ids, err := shape.GetExtendedSpatialIdsOnPoints([]*object.Point{row.P}, z, z)
+			must(err)
+			row.EIDs = append(row.EIDs, ids[0])
+			sids, err := shape.GetSpatialIdsOnPoints([]*object.Point{row.P}, z)
+			must(err)
+			row.SIDs = append(row.SIDs, sids[0])
+		}
+		rows = append(rows, row)
+	}
+	r.Shuffle(len(rows), func(i, j int) { rows[i], rows[j] = rows[j], rows[i] })
+	return rows
 }
 
 func must(err error) {
@@ -141,6 +183,27 @@ func newRegion(r *rand.Rand, place [2]float64, z int64) *Region {
 	g.ESIDv = *ev
 	g.Unit = integrate.NewUnitDividedSpatialID(g.ESID, 1, 1)
 	g.High = integrate.NewHighSpatialID(integrate.NewUnitDividedSpatialID(g.ESIDs[1], 1, 1), 1, 1)
+	// set-up (sequential, before anything is shared): the aggregate of 7 children, and the 8th child
+	n := 0
+	for dx := int64(0); dx < 2; dx++ {
+		for dy := int64(0); dy < 2; dy++ {
+			for f := int64(0); f < 2; f++ {
+				c, err := object.NewExtendedSpatialID(fmt.Sprintf("%d/%d/%d/%d/%d", z, x0+dx, y0+dy, z, f))
+				must(err)
+				n++
+				if n == 8 {
+					g.Last = c
+					break
+				}
+				h := integrate.NewHighSpatialID(integrate.NewUnitDividedSpatialID(c, 0, 0), 1, 1)
+				if g.Agg == nil {
+					g.Agg = h
+				} else {
+					g.Agg.Merge(h)
+				}
+			}
+		}
+	}
 	return g
 }
 
@@ -152,6 +215,7 @@ func NewPool(seed int64) *Pool {
 	for i := 0; i < 3; i++ {
 		p.Regs = append(p.Regs, newRegion(r, places[pl[i]], zooms[zs[i]]))
 	}
+	p.Rows = newRows(r)
 	p.QVs = []*object.QuadkeyAndVerticalID{
 		object.NewQuadkeyAndVerticalID(6, 2914, 7, 74, 500, 0),
 		object.NewQuadkeyAndVerticalID(6, 2882, 25, 0, 0, 0),
@@ -214,9 +278,12 @@ func (p *Pool) Snapshot() string {
 	full := func(s []string) []string { return s[:cap(s)] }
 	all := []interface{}{p.QVs[:cap(p.QVs)], p.Tiles[:cap(p.Tiles)], p.FQV, p.FQA, p.P3s[:cap(p.P3s)], p.Vecs[:cap(p.Vecs)],
 		p.Ints[:cap(p.Ints)], p.Ints2[:cap(p.Ints2)], p.Floats[:cap(p.Floats)], p.Inner[:cap(p.Inner)], full(p.Malform), full(p.Edge), full(p.EdgeS)}
+	for _, row := range p.Rows {
+		all = append(all, row.P, row.Q, row.EIDs, row.SIDs)
+	}
 	for _, g := range p.Regs {
 		all = append(all, g.Z, full(g.SIDs), full(g.SIDs2), full(g.EIDs), full(g.EIDs2), g.Points[:cap(g.Points)], g.PNil[:cap(g.PNil)], g.PA, g.PB,
-			g.Proj[:cap(g.Proj)], g.ESID, g.ESIDs[:cap(g.ESIDs)], g.ESIDv, g.Unit, g.High)
+			g.Proj[:cap(g.Proj)], g.ESID, g.ESIDs[:cap(g.ESIDs)], g.ESIDv, g.Unit, g.High, g.Agg, g.Last)
 	}
 	return Canon(all, false)
 }
@@ -274,7 +341,10 @@ type Call struct {
 	Name      string
 	Unordered bool // set-valued: the order of the result list follows Go's map iteration (the function ranges over a map), which differs between two
 	// sequential runs of the same call; only the result list itself is then compared as a multiset (measured by `vrace -detcheck`, and read off the code)
-	Run       func(p *Pool, r *rand.Rand) interface{}
+	// r draws the arguments of this instance; k draws its key-like arguments (zooms, clearance, radius, option, EPSG code, layer counts, shifts):
+	// related instances of a batch share k's seed and differ in r's, so they agree on the key-like arguments and differ in the rest
+	// (state keyed on part of the arguments - a cache keyed on zoom and clearance but not on the latitude row - shows only then)
+	Run func(p *Pool, r, k *rand.Rand) interface{}
 }
 
 // tuple: the results of one call; never sorted itself
@@ -295,17 +365,17 @@ func zoomNear(r *rand.Rand, z int64) int64 { return z - 2 + int64(r.Intn(4)) }
 // Catalogue: every exported function and method of every package of the library.
 var Catalogue = []Call{
 	// ---- shape
-	{"shape.GetSpatialIdsOnLine", true, func(p *Pool, r *rand.Rand) interface{} {
+	{"shape.GetSpatialIdsOnLine", true, func(p *Pool, r, k *rand.Rand) interface{} {
 		g := p.reg(r)
 		a, e := shape.GetSpatialIdsOnLine(g.PA, g.PB, zoomNear(r, g.Z))
 		return rs(a, errStr(e))
 	}},
-	{"shape.GetExtendedSpatialIdsOnLine", true, func(p *Pool, r *rand.Rand) interface{} {
+	{"shape.GetExtendedSpatialIdsOnLine", true, func(p *Pool, r, k *rand.Rand) interface{} {
 		g := p.reg(r)
 		a, e := shape.GetExtendedSpatialIdsOnLine(pick(r, g.PNil), pick(r, g.Points), zoomNear(r, g.Z), zoomNear(r, g.Z))
 		return rs(a, errStr(e))
 	}},
-	{"shape.GetSpatialIdsOnPoints", false, func(p *Pool, r *rand.Rand) interface{} {
+	{"shape.GetSpatialIdsOnPoints", false, func(p *Pool, r, k *rand.Rand) interface{} {
 		g := p.reg(r)
 		pts := window(r, g.Points, 6)
 		if r.Intn(25) == 0 {
@@ -314,92 +384,92 @@ var Catalogue = []Call{
 		a, e := shape.GetSpatialIdsOnPoints(pts, int64(r.Intn(30)))
 		return rs(a, errStr(e))
 	}},
-	{"shape.GetExtendedSpatialIdsOnPoints", false, func(p *Pool, r *rand.Rand) interface{} {
+	{"shape.GetExtendedSpatialIdsOnPoints", false, func(p *Pool, r, k *rand.Rand) interface{} {
 		g := p.reg(r)
 		a, e := shape.GetExtendedSpatialIdsOnPoints(window(r, g.Points, 6), int64(r.Intn(36)), int64(r.Intn(36)))
 		return rs(a, errStr(e))
 	}},
-	{"shape.GetPointOnSpatialId", false, func(p *Pool, r *rand.Rand) interface{} {
+	{"shape.GetPointOnSpatialId", false, func(p *Pool, r, k *rand.Rand) interface{} {
 		g := p.reg(r)
 		a, e := shape.GetPointOnSpatialId(pid(r, p, g.SIDs), enum.PointOption(r.Intn(2)))
 		return rs(a, errStr(e))
 	}},
-	{"shape.GetPointOnExtendedSpatialId", false, func(p *Pool, r *rand.Rand) interface{} {
+	{"shape.GetPointOnExtendedSpatialId", false, func(p *Pool, r, k *rand.Rand) interface{} {
 		g := p.reg(r)
 		a, e := shape.GetPointOnExtendedSpatialId(pid(r, p, g.EIDs2), enum.PointOption(r.Intn(2)))
 		return rs(a, errStr(e))
 	}},
-	{"shape.ConvertPointListToProjectedPointList", false, func(p *Pool, r *rand.Rand) interface{} {
+	{"shape.ConvertPointListToProjectedPointList", false, func(p *Pool, r, k *rand.Rand) interface{} {
 		g := p.reg(r)
 		a, e := shape.ConvertPointListToProjectedPointList(window(r, g.Points, 5), 3857)
 		return rs(a, errStr(e))
 	}},
-	{"shape.ConvertProjectedPointListToPointList", false, func(p *Pool, r *rand.Rand) interface{} {
+	{"shape.ConvertProjectedPointListToPointList", false, func(p *Pool, r, k *rand.Rand) interface{} {
 		g := p.reg(r)
 		a, e := shape.ConvertProjectedPointListToPointList(window(r, g.Proj, 5), 3857)
 		return rs(a, errStr(e))
 	}},
-	{"shape.CheckZoom", false, func(p *Pool, r *rand.Rand) interface{} { return shape.CheckZoom(int64(r.Intn(40) - 2)) }},
-	{"shape.ConvertSpatialIdsToExtendedSpatialIds", false, func(p *Pool, r *rand.Rand) interface{} {
+	{"shape.CheckZoom", false, func(p *Pool, r, k *rand.Rand) interface{} { return shape.CheckZoom(int64(r.Intn(40) - 2)) }},
+	{"shape.ConvertSpatialIdsToExtendedSpatialIds", false, func(p *Pool, r, k *rand.Rand) interface{} {
 		g := p.reg(r)
 		a, e := shape.ConvertSpatialIdsToExtendedSpatialIds(wids(r, p, g.SIDs, 8))
 		return rs(a, errStr(e))
 	}},
-	{"shape.ConvertExtendedSpatialIdsToSpatialIds", false, func(p *Pool, r *rand.Rand) interface{} {
+	{"shape.ConvertExtendedSpatialIdsToSpatialIds", false, func(p *Pool, r, k *rand.Rand) interface{} {
 		g := p.reg(r)
 		a, e := shape.ConvertExtendedSpatialIdsToSpatialIds(wids(r, p, g.EIDs2, 4))
 		return rs(a, errStr(e))
 	}},
-	{"shape.ConvertSpatialIdsToExtendedSpatialIds/malformed", false, func(p *Pool, r *rand.Rand) interface{} {
+	{"shape.ConvertSpatialIdsToExtendedSpatialIds/malformed", false, func(p *Pool, r, k *rand.Rand) interface{} {
 		a, e := shape.ConvertSpatialIdsToExtendedSpatialIds(window(r, p.Malform, 3))
 		return rs(a, errStr(e))
 	}},
 	// ---- integrate
-	{"integrate.MergeSpatialIds", true, func(p *Pool, r *rand.Rand) interface{} {
+	{"integrate.MergeSpatialIds", true, func(p *Pool, r, k *rand.Rand) interface{} {
 		g := p.reg(r)
 		a, e := integrate.MergeSpatialIds(wids(r, p, g.SIDs, 32), g.Z-1-int64(r.Intn(2)))
 		return rs(a, errStr(e))
 	}},
-	{"integrate.MergeExtendedSpatialIds", true, func(p *Pool, r *rand.Rand) interface{} {
+	{"integrate.MergeExtendedSpatialIds", true, func(p *Pool, r, k *rand.Rand) interface{} {
 		g := p.reg(r)
 		a, e := integrate.MergeExtendedSpatialIds(wids(r, p, g.EIDs, 32), g.Z-1-int64(r.Intn(2)), g.Z-int64(r.Intn(2)))
 		return rs(a, errStr(e))
 	}},
-	{"integrate.ChangeSpatialIdsZoom", true, func(p *Pool, r *rand.Rand) interface{} {
+	{"integrate.ChangeSpatialIdsZoom", true, func(p *Pool, r, k *rand.Rand) interface{} {
 		g := p.reg(r)
 		a, e := integrate.ChangeSpatialIdsZoom(wids(r, p, g.SIDs2, 4), zoomNear(r, g.Z))
 		return rs(a, errStr(e))
 	}},
-	{"integrate.ChangeExtendedSpatialIdsZoom", true, func(p *Pool, r *rand.Rand) interface{} {
+	{"integrate.ChangeExtendedSpatialIdsZoom", true, func(p *Pool, r, k *rand.Rand) interface{} {
 		g := p.reg(r)
 		a, e := integrate.ChangeExtendedSpatialIdsZoom(wids(r, p, g.EIDs2, 4), zoomNear(r, g.Z), zoomNear(r, g.Z))
 		return rs(a, errStr(e))
 	}},
-	{"integrate.HorizontalZoom", false, func(p *Pool, r *rand.Rand) interface{} {
+	{"integrate.HorizontalZoom", false, func(p *Pool, r, k *rand.Rand) interface{} {
 		g := p.reg(r)
 		return integrate.HorizontalZoom(g.Z, g.X0+int64(r.Intn(4)), g.Y0+int64(r.Intn(4)), zoomNear(r, g.Z))
 	}},
-	{"integrate.HorizontalZoomMinMax", false, func(p *Pool, r *rand.Rand) interface{} {
+	{"integrate.HorizontalZoomMinMax", false, func(p *Pool, r, k *rand.Rand) interface{} {
 		g := p.reg(r)
 		a, b, c, d := integrate.HorizontalZoomMinMax(g.Z, g.X0+int64(r.Intn(4)), g.Y0+int64(r.Intn(4)), int64(r.Intn(30)))
 		return rs(a, b, c, d)
 	}},
-	{"integrate.VerticalZoom", false, func(p *Pool, r *rand.Rand) interface{} {
+	{"integrate.VerticalZoom", false, func(p *Pool, r, k *rand.Rand) interface{} {
 		g := p.reg(r)
 		return integrate.VerticalZoom(g.Z, int64(r.Intn(64)-32), zoomNear(r, g.Z))
 	}},
-	{"integrate.NewUnitDividedSpatialID", false, func(p *Pool, r *rand.Rand) interface{} {
+	{"integrate.NewUnitDividedSpatialID", false, func(p *Pool, r, k *rand.Rand) interface{} {
 		g := p.reg(r)
 		return integrate.NewUnitDividedSpatialID(pick(r, g.ESIDs), int64(r.Intn(2)), int64(r.Intn(2)))
 	}},
 	// constructor-then-mutator chains on SHARED arguments: the shared object is only ever a constructor argument or a reader's receiver; the
 	// mutators (Merge, Set*) are applied to the private result. A constructor that keeps a reference to its argument makes the mutator write the
 	// shared object (NewHighSpatialID kept the unit's ID map until /repo 06056a1; NewUnitDividedSpatialID keeps the pointer to its argument).
-	{"integrate.NewHighSpatialID(shared unit)", false, func(p *Pool, r *rand.Rand) interface{} {
+	{"integrate.NewHighSpatialID(shared unit)", false, func(p *Pool, r, k *rand.Rand) interface{} {
 		g := p.reg(r)
 		return integrate.NewHighSpatialID(g.Unit, int64(r.Intn(2)), int64(r.Intn(2)))
 	}},
-	{"integrate.NewHighSpatialID(shared unit)+Merge on the result/chain", false, func(p *Pool, r *rand.Rand) interface{} {
+	{"integrate.NewHighSpatialID(shared unit)+Merge on the result/chain", false, func(p *Pool, r, k *rand.Rand) interface{} {
 		g := p.reg(r)
 		h := integrate.NewHighSpatialID(g.Unit, 1, 1)
 		h.Merge(g.High) // g.High, g.Unit: shared, only read by contract; h: private
@@ -407,18 +477,18 @@ var Catalogue = []Call{
 		h.Merge(h2)
 		return rs(h.IsDense(), h.ID(), g.Unit.ID())
 	}},
-	{"integrate.NewHighSpatialID(shared unit).IsDense/chain", false, func(p *Pool, r *rand.Rand) interface{} {
+	{"integrate.NewHighSpatialID(shared unit).IsDense/chain", false, func(p *Pool, r, k *rand.Rand) interface{} {
 		g := p.reg(r)
 		return rs(integrate.NewHighSpatialID(g.Unit, 1, 1).IsDense(), integrate.NewHighSpatialID(g.Unit, 0, 0).IsDense(), g.High.IsDense(), g.High.ID(), g.Unit.ID())
 	}},
-	{"integrate.NewHighSpatialID(shared unit)+setters on the result/chain", false, func(p *Pool, r *rand.Rand) interface{} {
+	{"integrate.NewHighSpatialID(shared unit)+setters on the result/chain", false, func(p *Pool, r, k *rand.Rand) interface{} {
 		g := p.reg(r)
 		h := integrate.NewHighSpatialID(g.Unit, 1, 1)
 		h.SetX(h.X() + int64(r.Intn(3)))
 		h.SetZoom(h.HZoom(), h.VZoom())
 		return rs(h.ID(), h.IsDense(), g.Unit.ID(), g.ESID.ID())
 	}},
-	{"integrate.NewUnitDividedSpatialID(shared ID)+setters on the result/chain", false, func(p *Pool, r *rand.Rand) interface{} {
+	{"integrate.NewUnitDividedSpatialID(shared ID)+setters on the result/chain", false, func(p *Pool, r, k *rand.Rand) interface{} {
 		g := p.reg(r)
 		s := pick(r, g.ESIDs)
 		u := integrate.NewUnitDividedSpatialID(s, int64(r.Intn(2)), int64(r.Intn(2)))
@@ -426,7 +496,7 @@ var Catalogue = []Call{
 		u.SetZ(int64(r.Intn(5)))
 		return rs(u.ID(), s.ID())
 	}},
-	{"integrate.NewUnitDividedSpatialID(shared ID)+NewHighSpatialID+Merge/chain", false, func(p *Pool, r *rand.Rand) interface{} {
+	{"integrate.NewUnitDividedSpatialID(shared ID)+NewHighSpatialID+Merge/chain", false, func(p *Pool, r, k *rand.Rand) interface{} {
 		g := p.reg(r)
 		a := integrate.NewHighSpatialID(integrate.NewUnitDividedSpatialID(g.ESID, 1, 1), 1, 1)
 		b := integrate.NewHighSpatialID(integrate.NewUnitDividedSpatialID(pick(r, g.ESIDs), 1, 1), 1, 1)
@@ -434,63 +504,70 @@ var Catalogue = []Call{
 		a.Merge(g.High)
 		return rs(a.IsDense(), a.ID(), g.ESID.ID())
 	}},
-	{"integrate.HighSpatialID.IsDense", false, func(p *Pool, r *rand.Rand) interface{} {
+	{"integrate.HighSpatialID.Merge(shared aggregate with more unit IDs than the receiver)/chain", false, func(p *Pool, r, k *rand.Rand) interface{} {
+		g := p.reg(r)
+		h := integrate.NewHighSpatialID(integrate.NewUnitDividedSpatialID(g.Last, 0, 0), 1, 1) // private, 1 unit ID
+		before := h.IsDense()
+		h.Merge(g.Agg) // shared aggregate (7 unit IDs): only read by contract
+		return rs(before, h.IsDense(), h.ID(), g.Agg.IsDense(), g.Agg.ID())
+	}},
+	{"integrate.HighSpatialID.IsDense", false, func(p *Pool, r, k *rand.Rand) interface{} {
 		g := p.reg(r)
 		return rs(g.High.IsDense(), g.High.ID(), g.Unit.ID(), g.Unit.X())
 	}},
 	// ---- operated
-	{"operated.Get6spatialIdsAdjacentToFaces", false, func(p *Pool, r *rand.Rand) interface{} {
+	{"operated.Get6spatialIdsAdjacentToFaces", false, func(p *Pool, r, k *rand.Rand) interface{} {
 		g := p.reg(r)
 		return operated.Get6spatialIdsAdjacentToFaces(pid(r, p, g.EIDs))
 	}},
-	{"operated.Get8spatialIdsAroundHorizontal", false, func(p *Pool, r *rand.Rand) interface{} {
+	{"operated.Get8spatialIdsAroundHorizontal", false, func(p *Pool, r, k *rand.Rand) interface{} {
 		g := p.reg(r)
 		return operated.Get8spatialIdsAroundHorizontal(pid(r, p, g.EIDs2))
 	}},
-	{"operated.Get26spatialIdsAroundVoxel", false, func(p *Pool, r *rand.Rand) interface{} {
+	{"operated.Get26spatialIdsAroundVoxel", false, func(p *Pool, r, k *rand.Rand) interface{} {
 		g := p.reg(r)
 		return operated.Get26spatialIdsAroundVoxel(pid(r, p, g.EIDs))
 	}},
-	{"operated.GetNspatialIdsAroundVoxcels", true, func(p *Pool, r *rand.Rand) interface{} {
+	{"operated.GetNspatialIdsAroundVoxcels", true, func(p *Pool, r, k *rand.Rand) interface{} {
 		g := p.reg(r)
 		a, e := operated.GetNspatialIdsAroundVoxcels(wids(r, p, g.EIDs, 4), int64(r.Intn(3)), int64(r.Intn(2)))
 		return rs(a, errStr(e))
 	}},
-	{"operated.GetShiftingSpatialID", false, func(p *Pool, r *rand.Rand) interface{} {
+	{"operated.GetShiftingSpatialID", false, func(p *Pool, r, k *rand.Rand) interface{} {
 		g := p.reg(r)
 		return operated.GetShiftingSpatialID(pid(r, p, g.EIDs2), int64(r.Intn(9)-4), int64(r.Intn(9)-4), int64(r.Intn(9)-4))
 	}},
 	// ---- operated at the edges of the grid and at mixed zooms (entries named .../edge, .../wrap, .../mixed are drawn more often, see Batch)
-	{"operated.GetShiftingSpatialID/wrap", false, func(p *Pool, r *rand.Rand) interface{} {
+	{"operated.GetShiftingSpatialID/wrap", false, func(p *Pool, r, k *rand.Rand) interface{} {
 		return operated.GetShiftingSpatialID(pick(r, p.Edge), int64(r.Intn(7)-3), int64(r.Intn(7)-3), int64(r.Intn(3)-1))
 	}},
-	{"operated.GetShiftingSpatialID/wrap-large", false, func(p *Pool, r *rand.Rand) interface{} {
+	{"operated.GetShiftingSpatialID/wrap-large", false, func(p *Pool, r, k *rand.Rand) interface{} {
 		id := pick(r, p.Edge)
 		var h int64
 		fmt.Sscanf(id, "%d/", &h)
 		wd := int64(1) << uint(h)
 		return operated.GetShiftingSpatialID(id, wd*int64(r.Intn(5)-2)+int64(r.Intn(5)-2), -wd-int64(r.Intn(4)), int64(r.Intn(3)-1))
 	}},
-	{"operated.GetShiftingSpatialID/wrap-pair", false, func(p *Pool, r *rand.Rand) interface{} {
+	{"operated.GetShiftingSpatialID/wrap-pair", false, func(p *Pool, r, k *rand.Rand) interface{} {
 		a := operated.GetShiftingSpatialID(pick(r, p.Edge), -3, 3, 0)
 		b := operated.GetShiftingSpatialID(pick(r, p.Edge), 2, -1, 1)
 		return rs(a, b, operated.GetShiftingSpatialID(a, 3, -3, 0))
 	}},
-	{"operated.Get6spatialIdsAdjacentToFaces/edge", false, func(p *Pool, r *rand.Rand) interface{} {
+	{"operated.Get6spatialIdsAdjacentToFaces/edge", false, func(p *Pool, r, k *rand.Rand) interface{} {
 		return operated.Get6spatialIdsAdjacentToFaces(pick(r, p.Edge))
 	}},
-	{"operated.Get8spatialIdsAroundHorizontal/edge", false, func(p *Pool, r *rand.Rand) interface{} {
+	{"operated.Get8spatialIdsAroundHorizontal/edge", false, func(p *Pool, r, k *rand.Rand) interface{} {
 		return operated.Get8spatialIdsAroundHorizontal(pick(r, p.Edge))
 	}},
-	{"operated.Get26spatialIdsAroundVoxel/edge", false, func(p *Pool, r *rand.Rand) interface{} {
+	{"operated.Get26spatialIdsAroundVoxel/edge", false, func(p *Pool, r, k *rand.Rand) interface{} {
 		return operated.Get26spatialIdsAroundVoxel(pick(r, p.Edge))
 	}},
-	{"operated.GetNspatialIdsAroundVoxcels/edge", true, func(p *Pool, r *rand.Rand) interface{} {
+	{"operated.GetNspatialIdsAroundVoxcels/edge", true, func(p *Pool, r, k *rand.Rand) interface{} {
 		a, e := operated.GetNspatialIdsAroundVoxcels(window(r, p.Edge, 3), int64(r.Intn(3)), int64(r.Intn(2)))
 		return rs(a, errStr(e))
 	}},
 	// ---- other packages at mixed zooms
-	{"integrate.ChangeExtendedSpatialIdsZoom/mixed", true, func(p *Pool, r *rand.Rand) interface{} {
+	{"integrate.ChangeExtendedSpatialIdsZoom/mixed", true, func(p *Pool, r, k *rand.Rand) interface{} {
 		id := pick(r, p.Edge)
 		var h, x, y, v int64
 		fmt.Sscanf(id, "%d/%d/%d/%d/", &h, &x, &y, &v)
@@ -506,7 +583,7 @@ var Catalogue = []Call{
 		a, e := integrate.ChangeExtendedSpatialIdsZoom([]string{id}, clamp(h+int64(r.Intn(4)-2)), clamp(v+int64(r.Intn(4)-2)))
 		return rs(a, errStr(e))
 	}},
-	{"integrate.ChangeSpatialIdsZoom/mixed", true, func(p *Pool, r *rand.Rand) interface{} {
+	{"integrate.ChangeSpatialIdsZoom/mixed", true, func(p *Pool, r, k *rand.Rand) interface{} {
 		id := pick(r, p.EdgeS)
 		var z int64
 		fmt.Sscanf(id, "%d/", &z)
@@ -520,7 +597,7 @@ var Catalogue = []Call{
 		a, e := integrate.ChangeSpatialIdsZoom([]string{id}, t)
 		return rs(a, errStr(e))
 	}},
-	{"integrate.MergeExtendedSpatialIds/mixed", true, func(p *Pool, r *rand.Rand) interface{} {
+	{"integrate.MergeExtendedSpatialIds/mixed", true, func(p *Pool, r, k *rand.Rand) interface{} {
 		g := p.reg(r)
 		// the 8 children of a voxel at a random zoom (computed by the library), merged back: zoom differences stay at 1 (larger ones explode)
 		id := pick(r, p.Edge)
@@ -536,23 +613,23 @@ var Catalogue = []Call{
 		a, e := integrate.MergeExtendedSpatialIds(kids, h, v)
 		return rs(a, errStr(e))
 	}},
-	{"detector.CheckExtendedSpatialIdsOverlap/mixed", false, func(p *Pool, r *rand.Rand) interface{} {
+	{"detector.CheckExtendedSpatialIdsOverlap/mixed", false, func(p *Pool, r, k *rand.Rand) interface{} {
 		a, e := detector.CheckExtendedSpatialIdsOverlap(pick(r, p.Edge), pick(r, p.Edge))
 		return rs(a, errStr(e))
 	}},
-	{"detector.CheckExtendedSpatialIdsArrayOverlap/mixed", false, func(p *Pool, r *rand.Rand) interface{} {
+	{"detector.CheckExtendedSpatialIdsArrayOverlap/mixed", false, func(p *Pool, r, k *rand.Rand) interface{} {
 		a, e := detector.CheckExtendedSpatialIdsArrayOverlap(window(r, p.Edge, 6), window(r, p.Edge, 6))
 		return rs(a, errStr(e))
 	}},
-	{"detector.CheckSpatialIdsArrayOverlap/mixed", false, func(p *Pool, r *rand.Rand) interface{} {
+	{"detector.CheckSpatialIdsArrayOverlap/mixed", false, func(p *Pool, r, k *rand.Rand) interface{} {
 		a, e := detector.CheckSpatialIdsArrayOverlap(window(r, p.EdgeS, 6), window(r, p.EdgeS, 6))
 		return rs(a, errStr(e))
 	}},
-	{"shape.GetPointOnExtendedSpatialId/mixed", false, func(p *Pool, r *rand.Rand) interface{} {
+	{"shape.GetPointOnExtendedSpatialId/mixed", false, func(p *Pool, r, k *rand.Rand) interface{} {
 		a, e := shape.GetPointOnExtendedSpatialId(pick(r, p.Edge), enum.PointOption(r.Intn(2)))
 		return rs(a, errStr(e))
 	}},
-	{"shape.ConvertExtendedSpatialIdsToSpatialIds/mixed", false, func(p *Pool, r *rand.Rand) interface{} {
+	{"shape.ConvertExtendedSpatialIdsToSpatialIds/mixed", false, func(p *Pool, r, k *rand.Rand) interface{} {
 		g := p.reg(r)
 		id := pick(r, p.Edge)
 		var h, x, y, v int64
@@ -563,129 +640,209 @@ var Catalogue = []Call{
 		a, e := shape.ConvertExtendedSpatialIdsToSpatialIds([]string{id})
 		return rs(a, errStr(e))
 	}},
-	{"transform.GetVoxelIDfromSpatialID/mixed", false, func(p *Pool, r *rand.Rand) interface{} {
+	{"transform.GetVoxelIDfromSpatialID/mixed", false, func(p *Pool, r, k *rand.Rand) interface{} {
 		return transform.GetVoxelIDfromSpatialID(pick(r, p.Edge))
 	}},
+	// ---- related calls: one function, the same key-like arguments (drawn from k: zoom, clearance, radius, option, EPSG code, layers, shift) and a
+	// different latitude row (drawn from r). Batch emits these in groups that share k's seed.
+	{"transform.FitClearanceAroundExtendedSpatialID/rows", false, func(p *Pool, r, k *rand.Rand) interface{} {
+		zi := k.Intn(len(RowZooms))
+		clearance := 40075016.0 / float64(int64(1)<<uint(RowZooms[zi])) * []float64{2, 5, 8.4}[k.Intn(3)] // about 10 m at zoom 25
+		a, b, e := transform.FitClearanceAroundExtendedSpatialID(pick(r, p.Rows).EIDs[zi], clearance)
+		return rs(a, b, errStr(e))
+	}},
+	{"transform.GetExtendedSpatialIdsWithinRadiusOfLine/rows", true, func(p *Pool, r, k *rand.Rand) interface{} {
+		zi := k.Intn(len(RowZooms))
+		radius := 40075016.0 / float64(int64(1)<<uint(RowZooms[zi])) * []float64{0.3, 0.8}[k.Intn(2)]
+		skip := k.Intn(3) != 0
+		row := pick(r, p.Rows)
+		a, e := transform.GetExtendedSpatialIdsWithinRadiusOfLine(row.P, row.Q[zi], radius, RowZooms[zi], RowZooms[zi], skip)
+		return rs(a, errStr(e))
+	}},
+	{"shape.GetPointOnExtendedSpatialId/rows", false, func(p *Pool, r, k *rand.Rand) interface{} {
+		zi, opt := k.Intn(len(RowZooms)), enum.PointOption(k.Intn(2))
+		a, e := shape.GetPointOnExtendedSpatialId(pick(r, p.Rows).EIDs[zi], opt)
+		return rs(a, errStr(e))
+	}},
+	{"shape.GetPointOnSpatialId/rows", false, func(p *Pool, r, k *rand.Rand) interface{} {
+		zi, opt := k.Intn(len(RowZooms)), enum.PointOption(k.Intn(2))
+		a, e := shape.GetPointOnSpatialId(pick(r, p.Rows).SIDs[zi], opt)
+		return rs(a, errStr(e))
+	}},
+	{"shape.GetExtendedSpatialIdsOnPoints/rows", false, func(p *Pool, r, k *rand.Rand) interface{} {
+		hz, vz := int64(k.Intn(30)), int64(k.Intn(30))
+		row := pick(r, p.Rows)
+		a, e := shape.GetExtendedSpatialIdsOnPoints([]*object.Point{row.P, row.Q[r.Intn(len(row.Q))]}, hz, vz)
+		return rs(a, errStr(e))
+	}},
+	{"shape.GetExtendedSpatialIdsOnLine/rows", true, func(p *Pool, r, k *rand.Rand) interface{} {
+		zi := k.Intn(len(RowZooms))
+		dz := int64(k.Intn(2))
+		row := pick(r, p.Rows)
+		a, e := shape.GetExtendedSpatialIdsOnLine(row.P, row.Q[zi], RowZooms[zi]-dz, RowZooms[zi])
+		return rs(a, errStr(e))
+	}},
+	{"shape.ConvertPointListToProjectedPointList/rows", false, func(p *Pool, r, k *rand.Rand) interface{} {
+		code := []int{3857, 3857, 32654, 2451}[k.Intn(4)]
+		row := pick(r, p.Rows)
+		a, e := shape.ConvertPointListToProjectedPointList([]*object.Point{row.P, row.Q[r.Intn(len(row.Q))]}, code)
+		return rs(a, errStr(e))
+	}},
+	{"integrate.ChangeExtendedSpatialIdsZoom/rows", true, func(p *Pool, r, k *rand.Rand) interface{} {
+		zi := k.Intn(len(RowZooms))
+		hz, vz := RowZooms[zi]+int64(k.Intn(3)-1), RowZooms[zi]+int64(k.Intn(3)-1)
+		a, e := integrate.ChangeExtendedSpatialIdsZoom([]string{pick(r, p.Rows).EIDs[zi]}, hz, vz)
+		return rs(a, errStr(e))
+	}},
+	{"detector.CheckExtendedSpatialIdsOverlap/rows", false, func(p *Pool, r, k *rand.Rand) interface{} {
+		zi, zj := k.Intn(len(RowZooms)), k.Intn(len(RowZooms))
+		row := pick(r, p.Rows)
+		a, e := detector.CheckExtendedSpatialIdsOverlap(row.EIDs[zi], row.EIDs[zj])
+		b, e2 := detector.CheckExtendedSpatialIdsOverlap(row.EIDs[zi], pick(r, p.Rows).EIDs[zj])
+		return rs(a, errStr(e), b, errStr(e2))
+	}},
+	{"operated.GetShiftingSpatialID/rows", false, func(p *Pool, r, k *rand.Rand) interface{} {
+		zi, dx, dy, dv := k.Intn(len(RowZooms)), int64(k.Intn(9)-4), int64(k.Intn(9)-4), int64(k.Intn(5)-2)
+		return operated.GetShiftingSpatialID(pick(r, p.Rows).EIDs[zi], dx, dy, dv)
+	}},
+	{"operated.GetNspatialIdsAroundVoxcels/rows", true, func(p *Pool, r, k *rand.Rand) interface{} {
+		zi, hl, vl := k.Intn(len(RowZooms)), int64(k.Intn(3)), int64(k.Intn(2))
+		a, e := operated.GetNspatialIdsAroundVoxcels([]string{pick(r, p.Rows).EIDs[zi]}, hl, vl)
+		return rs(a, errStr(e))
+	}},
+	{"transform.ConvertExtendedSpatialIDsToQuadkeysAndAltitudekeys/rows", false, func(p *Pool, r, k *rand.Rand) interface{} {
+		zi := k.Intn(len(RowZooms))
+		off := int64(k.Intn(3) - 1)
+		a, e := transform.ConvertExtendedSpatialIDsToQuadkeysAndAltitudekeys([]string{pick(r, p.Rows).EIDs[zi]}, RowZooms[zi], RowZooms[zi], 25, off)
+		return rs(a, errStr(e))
+	}},
+	{"transform.ConvertExtendedSpatialIDsToQuadkeysAndVerticalIDs/rows", false, func(p *Pool, r, k *rand.Rand) interface{} {
+		zi := 1 + k.Intn(len(RowZooms)-1)
+		vz := int64(8 + k.Intn(3))
+		hi, lo := []float64{500, 1000}[k.Intn(2)], []float64{0, -200}[k.Intn(2)]
+		a, e := transform.ConvertExtendedSpatialIDsToQuadkeysAndVerticalIDs([]string{pick(r, p.Rows).EIDs[zi]}, RowZooms[zi], vz, hi, lo)
+		return rs(a, errStr(e))
+	}},
 	// ---- detector
-	{"detector.CheckSpatialIdsOverlap", false, func(p *Pool, r *rand.Rand) interface{} {
+	{"detector.CheckSpatialIdsOverlap", false, func(p *Pool, r, k *rand.Rand) interface{} {
 		g := p.reg(r)
 		a, e := detector.CheckSpatialIdsOverlap(pid(r, p, g.SIDs2), pid(r, p, g.SIDs))
 		return rs(a, errStr(e))
 	}},
-	{"detector.CheckSpatialIdsArrayOverlap", false, func(p *Pool, r *rand.Rand) interface{} {
+	{"detector.CheckSpatialIdsArrayOverlap", false, func(p *Pool, r, k *rand.Rand) interface{} {
 		g := p.reg(r)
 		a, e := detector.CheckSpatialIdsArrayOverlap(wids(r, p, g.SIDs2, 6), wids(r, p, g.SIDs, 10))
 		return rs(a, errStr(e))
 	}},
-	{"detector.CheckExtendedSpatialIdsOverlap", false, func(p *Pool, r *rand.Rand) interface{} {
+	{"detector.CheckExtendedSpatialIdsOverlap", false, func(p *Pool, r, k *rand.Rand) interface{} {
 		g := p.reg(r)
 		a, e := detector.CheckExtendedSpatialIdsOverlap(pid(r, p, g.EIDs2), pid(r, p, g.EIDs))
 		return rs(a, errStr(e))
 	}},
-	{"detector.CheckExtendedSpatialIdsArrayOverlap", false, func(p *Pool, r *rand.Rand) interface{} {
+	{"detector.CheckExtendedSpatialIdsArrayOverlap", false, func(p *Pool, r, k *rand.Rand) interface{} {
 		g := p.reg(r)
 		a, e := detector.CheckExtendedSpatialIdsArrayOverlap(wids(r, p, g.EIDs2, 6), wids(r, p, g.EIDs, 10))
 		return rs(a, errStr(e))
 	}},
 	// ---- transform
-	{"transform.ConvertQuadkeysAndVerticalIDsToExtendedSpatialIDs", true, func(p *Pool, r *rand.Rand) interface{} {
+	{"transform.ConvertQuadkeysAndVerticalIDsToExtendedSpatialIDs", true, func(p *Pool, r, k *rand.Rand) interface{} {
 		a, e := transform.ConvertQuadkeysAndVerticalIDsToExtendedSpatialIDs(window(r, p.QVs, 3), int64(6+r.Intn(3)), int64(5+r.Intn(3)))
 		return rs(a, errStr(e))
 	}},
-	{"transform.ConvertQuadkeysAndVerticalIDsToSpatialIDs", true, func(p *Pool, r *rand.Rand) interface{} {
+	{"transform.ConvertQuadkeysAndVerticalIDsToSpatialIDs", true, func(p *Pool, r, k *rand.Rand) interface{} {
 		a, e := transform.ConvertQuadkeysAndVerticalIDsToSpatialIDs(window(r, p.QVs, 3), int64(6+r.Intn(3)))
 		return rs(a, errStr(e))
 	}},
-	{"transform.ConvertExtendedSpatialIDsToQuadkeysAndVerticalIDs", false, func(p *Pool, r *rand.Rand) interface{} {
+	{"transform.ConvertExtendedSpatialIDsToQuadkeysAndVerticalIDs", false, func(p *Pool, r, k *rand.Rand) interface{} {
 		g := p.reg(r)
-		a, e := transform.ConvertExtendedSpatialIDsToQuadkeysAndVerticalIDs(wids(r, p, g.EIDs, 3), g.Z-1+int64(r.Intn(3)), int64(8+r.Intn(4)), []float64{500, 1000, 250}[r.Intn(3)], []float64{0, -1000, 50}[r.Intn(3)])
+		a, e := transform.ConvertExtendedSpatialIDsToQuadkeysAndVerticalIDs(wids(r, p, g.EIDs, 3), g.Z-1+int64(r.Intn(3)), int64(5+r.Intn(4)), []float64{500, 1000, 250}[r.Intn(3)], []float64{0, -1000, 50}[r.Intn(3)])
 		return rs(a, errStr(e))
 	}},
-	{"transform.ConvertSpatialIDsToQuadkeysAndVerticalIDs", false, func(p *Pool, r *rand.Rand) interface{} {
+	{"transform.ConvertSpatialIDsToQuadkeysAndVerticalIDs", false, func(p *Pool, r, k *rand.Rand) interface{} {
 		g := p.reg(r)
-		a, e := transform.ConvertSpatialIDsToQuadkeysAndVerticalIDs(wids(r, p, g.SIDs, 3), g.Z-1+int64(r.Intn(3)), int64(8+r.Intn(4)), []float64{500, 1000, 250}[r.Intn(3)], []float64{0, -1000, 50}[r.Intn(3)])
+		a, e := transform.ConvertSpatialIDsToQuadkeysAndVerticalIDs(wids(r, p, g.SIDs, 3), g.Z-1+int64(r.Intn(3)), int64(5+r.Intn(4)), []float64{500, 1000, 250}[r.Intn(3)], []float64{0, -1000, 50}[r.Intn(3)])
 		return rs(a, errStr(e))
 	}},
-	{"transform.ConvertExtendedSpatialIDsToQuadkeysAndAltitudekeys", false, func(p *Pool, r *rand.Rand) interface{} {
+	{"transform.ConvertExtendedSpatialIDsToQuadkeysAndAltitudekeys", false, func(p *Pool, r, k *rand.Rand) interface{} {
 		g := p.reg(r)
 		a, e := transform.ConvertExtendedSpatialIDsToQuadkeysAndAltitudekeys(wids(r, p, g.EIDs, 3), g.Z-1+int64(r.Intn(3)), g.Z-1+int64(r.Intn(3)), 25, int64(r.Intn(3)-1))
 		return rs(a, errStr(e))
 	}},
-	{"transform.ConvertExtendedSpatialIDToSpatialIDs", false, func(p *Pool, r *rand.Rand) interface{} {
+	{"transform.ConvertExtendedSpatialIDToSpatialIDs", false, func(p *Pool, r, k *rand.Rand) interface{} {
 		g := p.reg(r)
 		return transform.ConvertExtendedSpatialIDToSpatialIDs(pick(r, g.ESIDs))
 	}},
-	{"transform.ConvertTileXYZsToExtendedSpatialIDs", true, func(p *Pool, r *rand.Rand) interface{} {
+	{"transform.ConvertTileXYZsToExtendedSpatialIDs", true, func(p *Pool, r, k *rand.Rand) interface{} {
 		ts, hz := tileRun(p, r)
 		a, e := transform.ConvertTileXYZsToExtendedSpatialIDs(ts, int64(24+r.Intn(2)), int64(r.Intn(3)-1), hz+int64(r.Intn(3)))
 		return rs(a, errStr(e))
 	}},
-	{"transform.ConvertTileXYZsToSpatialIDs", true, func(p *Pool, r *rand.Rand) interface{} {
+	{"transform.ConvertTileXYZsToSpatialIDs", true, func(p *Pool, r, k *rand.Rand) interface{} {
 		ts, hz := tileRun(p, r)
 		a, e := transform.ConvertTileXYZsToSpatialIDs(ts, int64(24+r.Intn(2)), int64(r.Intn(3)-1), hz+int64(r.Intn(2)))
 		return rs(a, errStr(e))
 	}},
-	{"transform.ConvertAltitudekeyToMinMaxZ", false, func(p *Pool, r *rand.Rand) interface{} {
+	{"transform.ConvertAltitudekeyToMinMaxZ", false, func(p *Pool, r, k *rand.Rand) interface{} {
 		a, b, e := transform.ConvertAltitudekeyToMinMaxZ(int64(r.Intn(1000)), int64(20+r.Intn(6)), int64(20+r.Intn(6)), 25, int64(r.Intn(5)-2))
 		return rs(a, b, errStr(e))
 	}},
-	{"transform.ConvertZToMinMaxAltitudekey", false, func(p *Pool, r *rand.Rand) interface{} {
+	{"transform.ConvertZToMinMaxAltitudekey", false, func(p *Pool, r, k *rand.Rand) interface{} {
 		a, b, e := transform.ConvertZToMinMaxAltitudekey(int64(r.Intn(1000)), int64(20+r.Intn(6)), int64(20+r.Intn(6)), 25, int64(r.Intn(5)-2))
 		return rs(a, b, errStr(e))
 	}},
-	{"transform.GetExtendedSpatialIdsWithinRadiusOfLine", true, func(p *Pool, r *rand.Rand) interface{} {
+	{"transform.GetExtendedSpatialIdsWithinRadiusOfLine", true, func(p *Pool, r, k *rand.Rand) interface{} {
 		g := p.reg(r)
 		a, e := transform.GetExtendedSpatialIdsWithinRadiusOfLine(g.PA, g.PB, g.Vox*2*(0.2+0.5*r.Float64()), g.Z-1, g.Z-1-int64(r.Intn(2)), r.Intn(2) == 0)
 		return rs(a, errStr(e))
 	}},
-	{"transform.FitClearanceAroundExtendedSpatialID", false, func(p *Pool, r *rand.Rand) interface{} {
+	{"transform.FitClearanceAroundExtendedSpatialID", false, func(p *Pool, r, k *rand.Rand) interface{} {
 		g := p.reg(r)
 		a, b, e := transform.FitClearanceAroundExtendedSpatialID(pid(r, p, g.EIDs), g.Vox*(0.3+1.5*r.Float64()))
 		return rs(a, b, errStr(e))
 	}},
-	{"transform.GetVoxelIDfromSpatialID", false, func(p *Pool, r *rand.Rand) interface{} {
+	{"transform.GetVoxelIDfromSpatialID", false, func(p *Pool, r, k *rand.Rand) interface{} {
 		g := p.reg(r)
 		return transform.GetVoxelIDfromSpatialID(pid(r, p, g.EIDs2))
 	}},
 	// ---- common
-	{"common.AlmostEqual", false, func(p *Pool, r *rand.Rand) interface{} {
+	{"common.AlmostEqual", false, func(p *Pool, r, k *rand.Rand) interface{} {
 		return common.AlmostEqual(pick(r, p.Floats), pick(r, p.Floats), 50)
 	}},
-	{"common.Max/Min", false, func(p *Pool, r *rand.Rand) interface{} {
+	{"common.Max/Min", false, func(p *Pool, r, k *rand.Rand) interface{} {
 		a, e1 := common.Max(window(r, p.Ints, 10))
 		b, e2 := common.Min(window(r, p.Floats, 10))
 		return rs(a, errStr(e1), b, errStr(e2))
 	}},
-	{"common.DegreeToRadian/RadianToDegree", false, func(p *Pool, r *rand.Rand) interface{} {
+	{"common.DegreeToRadian/RadianToDegree", false, func(p *Pool, r, k *rand.Rand) interface{} {
 		return rs(common.DegreeToRadian(pick(r, p.Floats)), common.RadianToDegree(pick(r, p.Floats)))
 	}},
-	{"common.Union", true, func(p *Pool, r *rand.Rand) interface{} {
+	{"common.Union", true, func(p *Pool, r, k *rand.Rand) interface{} {
 		return common.Union(window(r, p.Ints, 12), window(r, p.Ints2, 12))
 	}},
-	{"common.Difference", false, func(p *Pool, r *rand.Rand) interface{} {
+	{"common.Difference", false, func(p *Pool, r, k *rand.Rand) interface{} {
 		g := p.reg(r)
 		return common.Difference(wids(r, p, g.SIDs, 12), wids(r, p, g.SIDs, 12))
 	}},
-	{"common.Intersect", false, func(p *Pool, r *rand.Rand) interface{} {
+	{"common.Intersect", false, func(p *Pool, r, k *rand.Rand) interface{} {
 		return common.Intersect(window(r, p.Ints, 12), window(r, p.Ints2, 12))
 	}},
-	{"common.Unique", true, func(p *Pool, r *rand.Rand) interface{} {
+	{"common.Unique", true, func(p *Pool, r, k *rand.Rand) interface{} {
 		g := p.reg(r)
 		return common.Unique(wids(r, p, g.SIDs, 16))
 	}},
-	{"common.Include", false, func(p *Pool, r *rand.Rand) interface{} {
+	{"common.Include", false, func(p *Pool, r, k *rand.Rand) interface{} {
 		return common.Include(window(r, p.Ints, 12), pick(r, p.Ints2))
 	}},
-	{"common.Combinations", false, func(p *Pool, r *rand.Rand) interface{} {
+	{"common.Combinations", false, func(p *Pool, r, k *rand.Rand) interface{} {
 		var out [][]int64
 		common.Combinations(int64(3+r.Intn(4)), int64(1+r.Intn(3)), func(c []int64) { out = append(out, append([]int64{}, c...)) })
 		return out
 	}},
-	{"common.CalculateArithmeticShift", false, func(p *Pool, r *rand.Rand) interface{} {
+	{"common.CalculateArithmeticShift", false, func(p *Pool, r, k *rand.Rand) interface{} {
 		return common.CalculateArithmeticShift(pick(r, p.Ints), int64(r.Intn(11)-5))
 	}},
 	// ---- common/errors
-	{"errors.NewSpatialIdError", false, func(p *Pool, r *rand.Rand) interface{} {
+	{"errors.NewSpatialIdError", false, func(p *Pool, r, k *rand.Rand) interface{} {
 		e1 := sperr.NewSpatialIdError(sperr.InputValueErrorCode, pick(r, p.Malform))
 		e2 := sperr.NewSpatialIdError(sperr.OtherErrorCode, "x")
 		e3 := sperr.NewSpatialIdError(sperr.OptionFailedErrorCode, "")
@@ -693,12 +850,12 @@ var Catalogue = []Call{
 		return rs(e1.Error(), e2.Error(), e3.Error(), e4.Error())
 	}},
 	// ---- common/object: getters on shared objects, constructors, setters on private objects
-	{"object.Point getters", false, func(p *Pool, r *rand.Rand) interface{} {
+	{"object.Point getters", false, func(p *Pool, r, k *rand.Rand) interface{} {
 		g := p.reg(r)
 		q := pick(r, g.Points)
 		return rs(q.Lon(), q.Lat(), q.Alt(), g.PA.Lon(), g.PB.Alt())
 	}},
-	{"object.NewPoint+setters/private", false, func(p *Pool, r *rand.Rand) interface{} {
+	{"object.NewPoint+setters/private", false, func(p *Pool, r, k *rand.Rand) interface{} {
 		g := p.reg(r)
 		src := pick(r, g.Points)
 		q, e := object.NewPoint(src.Lon(), src.Lat(), src.Alt())
@@ -710,16 +867,16 @@ var Catalogue = []Call{
 		q.SetAlt(pick(r, p.Floats))
 		return rs(q, errStr(e1), errStr(e2))
 	}},
-	{"object.ExtendedSpatialID getters", false, func(p *Pool, r *rand.Rand) interface{} {
+	{"object.ExtendedSpatialID getters", false, func(p *Pool, r, k *rand.Rand) interface{} {
 		g := p.reg(r)
 		s := pick(r, g.ESIDs)
 		return rs(s.X(), s.Y(), s.Z(), s.HZoom(), s.VZoom(), s.ID(), s.FieldParams(), g.ESIDv.ID(), g.ESIDv.X(), g.ESID.ID())
 	}},
-	{"object.ExtendedSpatialID.Higher", false, func(p *Pool, r *rand.Rand) interface{} {
+	{"object.ExtendedSpatialID.Higher", false, func(p *Pool, r, k *rand.Rand) interface{} {
 		g := p.reg(r)
 		return rs(pick(r, g.ESIDs).Higher(int64(r.Intn(3)), int64(r.Intn(3))), g.ESIDv.Higher(1, int64(r.Intn(2))))
 	}},
-	{"object.NewExtendedSpatialID+setters/private", false, func(p *Pool, r *rand.Rand) interface{} {
+	{"object.NewExtendedSpatialID+setters/private", false, func(p *Pool, r, k *rand.Rand) interface{} {
 		g := p.reg(r)
 		s, e := object.NewExtendedSpatialID(pid(r, p, g.EIDs2))
 		if e != nil {
@@ -732,11 +889,11 @@ var Catalogue = []Call{
 		e2 := s.ResetExtendedSpatialID(pick(r, p.Malform))
 		return rs(s, errStr(e2))
 	}},
-	{"object.QuadkeyAndVerticalID getters", false, func(p *Pool, r *rand.Rand) interface{} {
+	{"object.QuadkeyAndVerticalID getters", false, func(p *Pool, r, k *rand.Rand) interface{} {
 		q := pick(r, p.QVs)
 		return rs(q.QuadkeyZoom(), q.Quadkey(), q.VZoom(), q.VIndex(), q.MaxHeight(), q.MinHeight())
 	}},
-	{"object.NewQuadkeyAndVerticalID+setters/private", false, func(p *Pool, r *rand.Rand) interface{} {
+	{"object.NewQuadkeyAndVerticalID+setters/private", false, func(p *Pool, r, k *rand.Rand) interface{} {
 		s := pick(r, p.QVs)
 		q := object.NewQuadkeyAndVerticalID(s.QuadkeyZoom(), s.Quadkey(), s.VZoom(), s.VIndex(), s.MaxHeight(), s.MinHeight())
 		q.SetQuadkeyZoom(int64(r.Intn(20)))
@@ -747,11 +904,11 @@ var Catalogue = []Call{
 		q.SetMinHeight(pick(r, p.Floats))
 		return q
 	}},
-	{"object.TileXYZ getters", false, func(p *Pool, r *rand.Rand) interface{} {
+	{"object.TileXYZ getters", false, func(p *Pool, r, k *rand.Rand) interface{} {
 		t := pick(r, p.Tiles)
 		return rs(t.HZoom(), t.X(), t.Y(), t.VZoom(), t.Z())
 	}},
-	{"object.NewTileXYZ+setters/private", false, func(p *Pool, r *rand.Rand) interface{} {
+	{"object.NewTileXYZ+setters/private", false, func(p *Pool, r, k *rand.Rand) interface{} {
 		s := pick(r, p.Tiles)
 		t, e := object.NewTileXYZ(s.HZoom(), s.X(), s.Y(), s.VZoom(), s.Z())
 		if e != nil {
@@ -764,10 +921,10 @@ var Catalogue = []Call{
 		t.SetZ(int64(r.Intn(9) - 4))
 		return rs(t, errStr(e1), errStr(e2))
 	}},
-	{"object.FromExtendedSpatialIDToQuadkeyAndVerticalID getters", false, func(p *Pool, r *rand.Rand) interface{} {
+	{"object.FromExtendedSpatialIDToQuadkeyAndVerticalID getters", false, func(p *Pool, r, k *rand.Rand) interface{} {
 		return rs(p.FQV.QuadkeyZoom(), p.FQV.InnerIDList(), p.FQV.VerticalZoom(), p.FQV.MaxHeight(), p.FQV.MinHeight())
 	}},
-	{"object.NewFromExtendedSpatialIDToQuadkeyAndVerticalID+setters/private", false, func(p *Pool, r *rand.Rand) interface{} {
+	{"object.NewFromExtendedSpatialIDToQuadkeyAndVerticalID+setters/private", false, func(p *Pool, r, k *rand.Rand) interface{} {
 		q := object.NewFromExtendedSpatialIDToQuadkeyAndVerticalID(int64(r.Intn(30)), window(r, p.Inner, 3), int64(r.Intn(30)), 500, 0)
 		q.SetQuadkeyZoom(int64(r.Intn(30)))
 		q.SetInnerIDList(window(r, p.Inner, 4))
@@ -776,10 +933,10 @@ var Catalogue = []Call{
 		q.SetMinHeight(pick(r, p.Floats))
 		return q
 	}},
-	{"object.FromExtendedSpatialIDToQuadkeyAndAltitudekey getters", false, func(p *Pool, r *rand.Rand) interface{} {
+	{"object.FromExtendedSpatialIDToQuadkeyAndAltitudekey getters", false, func(p *Pool, r, k *rand.Rand) interface{} {
 		return rs(p.FQA.QuadkeyZoom(), p.FQA.InnerIDList(), p.FQA.AltitudekeyZoom(), p.FQA.ZBaseExponent(), p.FQA.ZBaseOffset())
 	}},
-	{"object.NewFromExtendedSpatialIDToQuadkeyAndAltitudekey+setters/private", false, func(p *Pool, r *rand.Rand) interface{} {
+	{"object.NewFromExtendedSpatialIDToQuadkeyAndAltitudekey+setters/private", false, func(p *Pool, r, k *rand.Rand) interface{} {
 		q := object.NewFromExtendedSpatialIDToQuadkeyAndAltitudekey(int64(r.Intn(30)), window(r, p.Inner, 3), int64(r.Intn(30)), 25, 0)
 		q.SetQuadkeyZoom(int64(r.Intn(30)))
 		q.SetInnerIDList(window(r, p.Inner, 4))
@@ -789,11 +946,11 @@ var Catalogue = []Call{
 		return q
 	}},
 	// ---- common/spatial
-	{"spatial.Line3", false, func(p *Pool, r *rand.Rand) interface{} {
+	{"spatial.Line3", false, func(p *Pool, r, k *rand.Rand) interface{} {
 		l := spatial.NewLineFromPoints(*pick(r, p.P3s), *pick(r, p.P3s))
 		return rs(l, l.ToPoint(r.Float64()), l.Start(), l.End())
 	}},
-	{"spatial.Matrix3", false, func(p *Pool, r *rand.Rand) interface{} {
+	{"spatial.Matrix3", false, func(p *Pool, r, k *rand.Rand) interface{} {
 		f := window(r, p.Floats, 9)
 		for len(f) < 9 {
 			f = p.Floats[:9]
@@ -802,23 +959,23 @@ var Catalogue = []Call{
 		u := spatial.NewUnitMatrix3()
 		return rs(m.Mul(u), u.Mul(m).Mul(m), m.MulVec(pick(r, p.Vecs)))
 	}},
-	{"spatial.MaxPoint/MinPoint", false, func(p *Pool, r *rand.Rand) interface{} {
+	{"spatial.MaxPoint/MinPoint", false, func(p *Pool, r, k *rand.Rand) interface{} {
 		a, e1 := spatial.MaxPoint(window(r, p.P3s, 8), pick(r, p.Vecs))
 		b, e2 := spatial.MinPoint(window(r, p.P3s, 8), pick(r, p.Vecs))
 		return rs(a, errStr(e1), b, errStr(e2))
 	}},
-	{"spatial.UniqueAppend/private slice", false, func(p *Pool, r *rand.Rand) interface{} {
+	{"spatial.UniqueAppend/private slice", false, func(p *Pool, r, k *rand.Rand) interface{} {
 		own := append([]*spatial.Point3{}, window(r, p.P3s, 5)...) // the slice is private (append-like contract); the points are shared
 		return spatial.UniqueAppend(own, pick(r, p.P3s), 0.5)
 	}},
-	{"spatial.Point3 methods", false, func(p *Pool, r *rand.Rand) interface{} {
+	{"spatial.Point3 methods", false, func(p *Pool, r, k *rand.Rand) interface{} {
 		a, b := pick(r, p.P3s), pick(r, p.P3s)
 		return rs(a.IsClose(*b, 3), a.Translate(pick(r, p.Vecs)), a.DistancePoint(*b))
 	}},
-	{"spatial.Quat", false, func(p *Pool, r *rand.Rand) interface{} {
+	{"spatial.Quat", false, func(p *Pool, r, k *rand.Rand) interface{} {
 		return rs(spatial.RotateBetweenVector(pick(r, p.Vecs), pick(r, p.Vecs)), spatial.QuatFromAxisAngle(pick(r, p.Vecs), r.Float64()*3))
 	}},
-	{"spatial.Vector3 methods", false, func(p *Pool, r *rand.Rand) interface{} {
+	{"spatial.Vector3 methods", false, func(p *Pool, r, k *rand.Rand) interface{} {
 		a, b := pick(r, p.Vecs), pick(r, p.Vecs)
 		return rs(spatial.NewVectorFromPoints(*pick(r, p.P3s), *pick(r, p.P3s)), a.Add(b), a.Sub(b), a.Scale(r.Float64()), a.Dot(b), a.Cross(b),
 			a.Norm(), a.L1Norm(), a.Unit(), a.Cos(b))
@@ -829,6 +986,7 @@ var Catalogue = []Call{
 type Inst struct {
 	Idx  int   `json:"index"`
 	Seed int64 `json:"arg_seed"`
+	Key  int64 `json:"key_seed"` // seed of the key-like arguments; related instances share it
 }
 
 // RunInst runs one call instance against the pool; panics become part of the result.
@@ -842,7 +1000,7 @@ func RunInstAs(p *Pool, in Inst, unordered bool) (res string) {
 			res = "panic: " + fmt.Sprint(e)
 		}
 	}()
-	return Canon(c.Run(p, rand.New(rand.NewSource(in.Seed))), unordered)
+	return Canon(c.Run(p, rand.New(rand.NewSource(in.Seed)), rand.New(rand.NewSource(in.Key))), unordered)
 }
 
 // weight of a catalogue entry in a batch: calls at the edges of the grid / at mixed zooms are drawn more often (state that depends on the zoom
@@ -851,7 +1009,7 @@ func weight(name string) int {
 	switch {
 	case strings.Contains(name, "/wrap"):
 		return 8
-	case strings.HasSuffix(name, "/chain"):
+	case strings.HasSuffix(name, "/chain"), strings.HasSuffix(name, "/rows"):
 		return 3
 	case strings.HasSuffix(name, "/edge"):
 		return 4
@@ -861,9 +1019,10 @@ func weight(name string) int {
 	return 1
 }
 
-var weighted, focusEdge []int
+// built by a variable initialiser (not an init function): the fresh-process child starts from an init function of this package
+var weighted, focusEdge, focusRows = buildWeights()
 
-func init() {
+func buildWeights() (weighted, focusEdge, focusRows []int) {
 	for i, c := range Catalogue {
 		for k := 0; k < weight(c.Name); k++ {
 			weighted = append(weighted, i)
@@ -871,31 +1030,60 @@ func init() {
 		if weight(c.Name) >= 4 {
 			focusEdge = append(focusEdge, i)
 		}
+		if strings.HasSuffix(c.Name, "/rows") {
+			focusRows = append(focusRows, i)
+		}
 	}
+	return
 }
 
-// Batch: n seeded call instances. focus 0: every catalogue entry appears (when n allows), the rest is drawn by weight;
-// focus 1: only the calls at the edges of the grid (wrapping shifts and neighbourhoods at mixed zooms).
+// Batch: the first n instances of a seeded stream (a shorter batch is a prefix of a longer one with the same seed, so shrinking the batch size
+// keeps the calls). focus 0: drawn by weight; for one seed in three the stream starts with every catalogue entry once, in random order;
+// focus 1: only the calls at the edges of the grid (wrapping shifts and neighbourhoods at mixed zooms);
+// focus 2: only groups of related calls (the /rows entries). In every focus a /rows entry comes as a group of 3..6 instances that share the seed of
+// their key-like arguments and differ in the rest; a repeated plain entry shares its key seed with the earlier instance every other time.
 func Batch(r *rand.Rand, n int, focus int) []Inst {
 	out := make([]Inst, 0, n)
 	perm := r.Perm(len(Catalogue))
+	all := r.Intn(3) == 0
+	np := 0
+	isRows := map[int]bool{}
+	for _, i := range focusRows {
+		isRows[i] = true
+	}
+	group, groupIdx, groupKey := 0, 0, int64(0)
 	for i := 0; i < n; i++ {
+		if group > 0 {
+			group--
+			out = append(out, Inst{Idx: groupIdx, Seed: r.Int63(), Key: groupKey})
+			continue
+		}
 		var idx int
 		switch {
 		case focus == 1:
 			idx = focusEdge[r.Intn(len(focusEdge))]
-		case i < len(perm) && n >= len(perm):
-			idx = perm[i]
+		case focus == 2:
+			idx = focusRows[r.Intn(len(focusRows))]
+		case all && np < len(perm):
+			idx = perm[np]
+			np++
 		default:
 			idx = weighted[r.Intn(len(weighted))]
 		}
+		key := r.Int63()
 		// the same function again with other arguments: different calls of one function overlap (state keyed on an argument shows)
 		if focus == 0 && i > 0 && r.Intn(4) == 0 {
-			idx = out[r.Intn(i)].Idx
+			prev := out[r.Intn(i)]
+			idx = prev.Idx
+			if r.Intn(2) == 0 {
+				key = prev.Key
+			}
 		}
-		out = append(out, Inst{Idx: idx, Seed: r.Int63()})
+		if isRows[idx] {
+			group, groupIdx, groupKey = 2+r.Intn(4), idx, key
+		}
+		out = append(out, Inst{Idx: idx, Seed: r.Int63(), Key: key})
 	}
-	r.Shuffle(len(out), func(i, j int) { out[i], out[j] = out[j], out[i] })
 	return out
 }
 
